@@ -19,6 +19,7 @@ type c10obs struct {
 	End     string `json:"end"`
 	Writes  []int  `json:"writes"`
 	Crashed int    `json:"crashed"`
+	Pos     []string `json:"pos"`
 }
 
 func checkC10(c *vx.Ctx) {
@@ -35,12 +36,23 @@ func crashEnum(c *vx.Ctx, report []string) {
 		c.Rule += " PLUS crash points: " + ruleText
 	}
 	props := "C10,C04"
+	for _, r := range report {
+		if r == "C02" {
+			props = "C10,C04,C02"
+		}
+	}
 	type base struct {
-		exec string
-		devs []string
+		exec   string
+		devs   []string
+		script []string // nil: the harness's benign script
 	}
 	var bases []base
-	bases = append(bases, base{"mirror", nil}, base{"node", nil})
+	bases = append(bases, base{"mirror", nil, nil}, base{"node", nil, nil})
+	// Catch-up by replayed headers only: every height is committed by a replay (with and without the proposal having
+	// arrived first), so recovery after a crash inside a replay shows in what the NEXT replay meets.
+	bases = append(bases,
+		base{"mirror", nil, []string{"SME", "RP:ok", "SMN:h", "RP:ok", "SMN:h", "RP:ok", "SMN:h", "RP:ok"}},
+		base{"mirror", nil, []string{"SME", "PH:A", "RP:ok", "SMN:h", "PH:A", "V:p:0:A", "V:p:1:A", "RP:ok", "SMN:h", "RP:ok"}})
 	mirrorDevs := []string{"5:+V:c:3:nil", "17:+V:p:3:A@0,2", "9:+V:p:3:A:zerosig", "9:+PH:B", "20:+V:c:3:B", "24:+V:p:3:nil@0,1", "2:+V:c:h:A@1,0", "10:+RP:ok"}
 	nodeDevs := []string{"3:+V:c:3:nil", "9:+PH:B", "10:+V:p:3:A@0,2", "12:+V:p:3:A:zerosig", "18:+V:p:3:nil@0,1", "26:+RP:ok", "2:~SR:nil", "16:~SR:propose", "4:+V:c:oh:A@1,0"}
 	if !c.Quick() {
@@ -52,15 +64,28 @@ func crashEnum(c *vx.Ctx, report []string) {
 		}
 	}
 	for _, d := range mirrorDevs {
-		bases = append(bases, base{"mirror", []string{d}})
+		bases = append(bases, base{"mirror", []string{d}, nil})
 	}
 	for _, d := range nodeDevs {
-		bases = append(bases, base{"node", []string{d}})
+		bases = append(bases, base{"node", []string{d}, nil})
+	}
+	// The validator proposes (C02: a proposal signed and recorded before a stop must not be followed by a second one).
+	for _, d := range []string{"0:~SR:propose", "8:~SR:propose", "22:~SR:propose"} {
+		bases = append(bases, base{"node", []string{d}, nil})
 	}
 	// Crash-free runs first: they give the write counts per event and the reference end state.
+	scriptOf := func(b base) []string {
+		if b.script != nil {
+			return b.script
+		}
+		if b.exec == "node" {
+			return nodeScript()
+		}
+		return benignScript()
+	}
 	refJobs := make([]vx.Job, len(bases))
 	for i, b := range bases {
-		refJobs[i] = vx.Job{Exec: b.exec, Hist: b.devs, Args: map[string]string{"props": props, "mode": "dev"}}
+		refJobs[i] = vx.Job{Exec: b.exec, Hist: buildEvents(scriptOf(b), b.devs), Args: map[string]string{"props": props, "mode": "raw", "seed": "0"}}
 	}
 	refs := c.Pool.Map(refJobs)
 	type crashCase struct {
@@ -68,7 +93,6 @@ func crashEnum(c *vx.Ctx, report []string) {
 		job  vx.Job
 	}
 	var cases []crashCase
-	script := map[string][]string{"mirror": benignScript(), "node": nodeScript()}
 	for i, r := range refs {
 		c.Absorb(refJobs[i], r, report...)
 		if r.Crash != "" || r.HarnessErr != "" || len(r.Obs) == 0 {
@@ -80,22 +104,31 @@ func crashEnum(c *vx.Ctx, report []string) {
 		}
 		// Map trace positions back to script positions: the crash is armed by a "Crash:k" event inserted
 		// immediately before the event it interrupts.
-		events := buildEvents(script[bases[i].exec], bases[i].devs)
+		events := buildEvents(scriptOf(bases[i]), bases[i].devs)
 		for pos := 0; pos < len(events) && pos+1 < len(ob.Writes); pos++ {
 			w := ob.Writes[pos+1] - ob.Writes[pos]
 			for k := 0; k < w; k++ {
-				hist := withCrash(script[bases[i].exec], bases[i].devs, pos, k)
+				hist := withCrash(scriptOf(bases[i]), bases[i].devs, pos, k)
 				if bases[i].exec == "node" {
 					// The engine's scripted continuation is not meaningful after a restart (the strategy is asked
 					// again in another order): the engine runs stop after the interrupted event was re-delivered and
 					// are judged by the restart oracles only; the end-state comparison is made in the mirror harness.
 					hist = append(hist[:pos+2:pos+2], "Settle")
+					if props != "C10,C04" {
+						// C02: the restarted validator's strategy proposes (again) when it re-enters the round.
+						h3 := append(append([]string{}, hist[:pos+2]...), "SR:propose", "Settle")
+						cases = append(cases, crashCase{i, vx.Job{Exec: bases[i].exec, Hist: h3, Args: map[string]string{"props": props, "mode": "raw", "seed": "0", "ref": fmt.Sprint(i)}}})
+					}
 				}
-				cases = append(cases, crashCase{i, vx.Job{Exec: bases[i].exec, Hist: hist, Args: map[string]string{"props": props, "mode": "raw", "seed": "0", "ref": fmt.Sprint(i)}}})
+				cj := vx.Job{Exec: bases[i].exec, Hist: hist, Args: map[string]string{"props": props, "mode": "raw", "seed": "0", "ref": fmt.Sprint(i)}}
+				if bases[i].exec == "mirror" && pos < len(ob.Pos) {
+					cj.Args["expect_after"] = ob.Pos[pos]
+				}
+				cases = append(cases, crashCase{i, cj})
 				if !c.Quick() && i < 2 {
 					// A second crash while the interrupted event is delivered again.
 					for k2 := 0; k2 <= k && k2 < 3; k2++ {
-						h2 := withDoubleCrash(script[bases[i].exec], bases[i].devs, pos, k, k2)
+						h2 := withDoubleCrash(scriptOf(bases[i]), bases[i].devs, pos, k, k2)
 						cases = append(cases, crashCase{i, vx.Job{Exec: bases[i].exec, Hist: h2, Args: map[string]string{"props": props, "mode": "raw", "seed": "0", "ref": fmt.Sprint(i)}}})
 					}
 				}
